@@ -305,9 +305,11 @@ func exec(op string) string {
 		w.closed[lf] = true
 		id := ls.FaceID()
 		w.closeFace(ls)
-		if !waitUntil("flush", func() bool { return face.FaceTable.Get(id) == nil && !w.goroutineIn("fw/face.(*Table).Remove") }) {
+		if !waitUntil("flush", func() bool { return face.FaceTable.Get(id) == nil }) {
 			return "STUCK " + w.dump()
 		}
+		// the RIB clean-up follows on the face's goroutine (leftover routes show in the dump)
+		waitUntil("flush", func() bool { return routesOf(id) == 0 })
 		return "gone " + w.dump()
 	case "probe":
 		// probe <from> <name>: an ordinary Interest enters the forwarder (liveness of the forwarding
